@@ -180,6 +180,13 @@ func NewClient(dsn string, options ...Option) *http.Client {
 var _ http.RoundTripper = (*transport)(nil)
 
 func (r *transport) RoundTrip(req *http.Request) (*http.Response, error) {
+	if req.Method == "" {
+		// net/http: "For client requests, an empty string means GET". The
+		// caller's request is left as it is (RoundTripper contract).
+		r2 := *req
+		r2.Method = http.MethodGet
+		req = &r2
+	}
 	urlKey := r.uk.URLKey(req.URL)
 
 	if !r.rmc.IsRequestMethodUnderstood(req) {
